@@ -336,9 +336,12 @@ def c20 (h : H) : List String :=
     let injected := h.filterMap fun e => match e with
       | .inj ep' "nfcall" => if ep' = ep then some "Call p.nope" else none
       | _ => none
+    -- an RPC whose argument cannot be encoded is never sent: whether it leaves a record is not specified
+    let unsent := (os.filter fun o => o.ep = ep && h.any fun e => match e with | .badarg c => c == o.c | _ => false).map
+      fun o => typeName o.kind o.ctype ++ " p." ++ o.meth
     let expected := client ++ cancels ++ served ++ injected
     let tags := (expected ++ recs.map (·.1)).eraseDups
-    (tags.filterMap fun t =>
+    ((tags.filter fun t => !unsent.contains t).filterMap fun t =>
       let e := count expected t
       let a := count (recs.map (·.1)) t
       if e = a then none
@@ -398,7 +401,20 @@ def obsCheck : Option String → Bool → List Obs → List String
              (wasDone || o.d2) rest
 
 def c07 (h : H) : List String :=
-  (List.range 2).flatMap fun ep => obsCheck none false (obsOf h ep)
+  ((List.range 2).flatMap fun ep => obsCheck none false (obsOf h ep)) ++
+  -- not-found calls / notifications, stray responses and stray cancellations leave the traffic before and
+  -- after them unaffected: with nothing but such frames injected, every ordinary monitor still holds
+  (let benign := h.any fun e => match e with
+      | .inj _ k => k == "strayresp" || k == "straycancel" || k == "nfcall" || k == "nfnotify"
+      | _ => false
+   if benign ∧ undisturbed h then
+     (if (c10 h).isEmpty then [] else ["C07:traffic-blocked-after-notfound-or-stray-frame"]) ++
+     (if (c01 h).any (fun v => v != "C01:reply-missing:result-too-large-for-a-frame") then
+        ["C07:traffic-disturbed-after-notfound-or-stray-frame"] else []) ++
+     (if h.any (fun e => match e with | .regb _ => true | _ => false) ∧
+         ¬ h.any (fun e => match e with | .rege _ => true | _ => false) then
+        ["C07:protocol-registration-blocked-after-notfound-frame"] else [])
+   else [])
 
 def harnessTrouble (h : H) : List String :=
   h.filterMap fun e => match e with
